@@ -169,7 +169,7 @@ def oracle(lay, go_lines):
     nonempty = [f for f in frames if f[1] > f[0]]
     prev = None
     for i, t in enumerate(deps):
-        if i not in got:
+        if i not in got or t < 0:       # departures before the epoch are outside the property (and the theorems: 0 <= v)
             continue
         v = got[i]
         if v < 0:
